@@ -333,7 +333,20 @@ func (cc *chainCase) variant(height uint64, block *types.Block, P, cold, warm *c
 			pick = 5
 		}
 	}
+	var dropped []types.Tx
+	if pick != 5 && r.Chance(0.5) {
+		if dropped = w.droppedFromPool(); len(dropped) > 0 {
+			pick = 6
+		}
+	}
 	switch pick {
+	case 6:
+		// a transaction the proposer's pool dropped at a recheck but still has in its dedup cache (admitted
+		// under an earlier state): the proposer-self replica judges it with a warm cache, the others cold
+		t := dropped[r.Intn(len(dropped))]
+		txs = append(txs, t)
+		mut = "append-dropped-but-cached"
+		c.Count("variants_with_dropped_cached_tx:"+classOf(w.kindOf[t.Hash()]), 1)
 	case 5:
 		// an upgrade of a system contract that never commits
 		w.kindOf[up.tx.Hash()] = up.kind
